@@ -2,9 +2,11 @@
 
 from __future__ import annotations
 
+import contextlib
 import hashlib
 import json
 import os
+import signal
 import sys
 import time
 
@@ -203,6 +205,28 @@ def _shrink(record, limit=1500):
     if len(s) <= limit:
         return json.loads(s)
     return {"truncated": s[:limit]}
+
+
+class NonTermination(Exception):
+    """The implementation did not return within the (generous) limit: a loop that no longer terminates."""
+
+
+@contextlib.contextmanager
+def time_limit(seconds):
+    """Raise NonTermination in the calling (main) thread of this process after `seconds` of wall time.
+
+    Used around calls into the implementation on SMALL inputs that normally take milliseconds, so that a change
+    which makes a loop diverge is reported as a violation (`does_not_terminate`) and not as a hung check."""
+    def handler(signum, frame):
+        raise NonTermination(f"no result within {seconds} s")
+
+    old = signal.signal(signal.SIGALRM, handler)
+    signal.setitimer(signal.ITIMER_REAL, seconds)
+    try:
+        yield
+    finally:
+        signal.setitimer(signal.ITIMER_REAL, 0)
+        signal.signal(signal.SIGALRM, old)
 
 
 def chunks(xs, n):
